@@ -36,15 +36,16 @@ pub fn scenario(max_ops: usize) -> impl Strategy<Value = Scenario> {
 		(0u8..3),
 		any::<bool>(),
 		prop_oneof![3 => Just(12u16), 3 => Just(45u16), 1 => Just(400u16)],
+		0u8..4,
 	)
-		.prop_flat_map(move |(compression, with_hash, nkeys)| {
+		.prop_flat_map(move |(compression, with_hash, nkeys, bits)| {
 			let mut b = ColCfg::btree();
 			b.compression = compression;
 			let mut cols = vec![b];
 			if with_hash {
 				cols.push(ColCfg::hash());
 			}
-			let cfg = DbCfg::new(cols);
+			let cfg = DbCfg::new(cols).flags(bits);
 			let ncols = cfg.cols.len() as u8;
 			let small = proptest::collection::vec((0..ncols, map_change(nkeys, 40_000)).prop_map(|(col, ch)| Item { col, ch }), 1..=6);
 			// bulk insert / delete of a dense run of key ids in the btree column
